@@ -5,6 +5,8 @@
      F <suppress> <recvNow> <sentAt> <inflight> <fails> <recvAtLastFail> | <newFails> <newRecv> <credited>
      R <suppress> <inflight> <recvNow> <sentAt> | <bool>
      L <threshold> <suppress> <k> {<preInfl> <fail> <sentAt> <recvNow> <infl> <recvFinal> <inflFinal>}*k | {<suppressed> <send> <err> <credited> <down>}*
+     T <threshold> <suppress> <k> {<active> <preInfl> <fail> <sentAt> <recvNow> <infl> <recvFinal> <inflFinal>}*k | {...}*
+       (timed run of the real loop: <active> = one of our own writes landed inside the rule-1 window)
 *)
 let split_bar line =
   match String.index_opt line '|' with
@@ -35,13 +37,15 @@ let check _ln line =
     if m <> obs then Some (Printf.sprintf "recheck model=[%s] impl=[%s]" m obs)
     else if g <> obs then Some (Printf.sprintf "recheck generated=[%s] impl=[%s]" g obs)
     else None
-  | "L" :: th :: sup :: k :: rest ->
+  | ("L" | "T" as kind) :: th :: sup :: k :: rest ->
     let th = z_of_string th and sup = bool_of_string01 sup and k = int_of_string k in
     let rec obs_of n rest acc =
       if n = 0 then List.rev acc else
+        let (act, rest) = if kind = "T" then (match rest with a :: tl -> (bool_of_string01 a, tl) | [] -> failwith "bad obs")
+                          else (false, rest) in
         match rest with
         | pi :: fl :: sa :: rn :: inf :: rf :: iff :: tl ->
-          let o = { o_active = false; o_pre_inflight = z_of_string pi; o_fail = bool_of_string01 fl;
+          let o = { o_active = act; o_pre_inflight = z_of_string pi; o_fail = bool_of_string01 fl;
                     o_sent_at = z_of_string sa; o_recv_now = z_of_string rn; o_inflight = z_of_string inf;
                     o_recv_final = z_of_string rf; o_inflight_final = z_of_string iff } in
           obs_of (n - 1) tl (o :: acc)
